@@ -259,6 +259,9 @@ pub fn main(args: &[String]) -> Result<(), String> {
     let maxsteps: usize = get(&m, "maxsteps", 3000);
     let maxtotal: usize = get(&m, "maxtotal", 12000);
     let with_prelude: usize = get(&m, "prelude", 1);
+    // force a collection before every gc-th instruction (0: never); run in slices of `budget` instructions (0: unsliced)
+    let gc: u64 = get(&m, "gc", 0);
+    let budget: usize = get(&m, "budget", 0);
     let out = m.get("out").cloned().ok_or("out=<file> required")?;
     let mut f = std::io::BufWriter::new(std::fs::File::create(&out).map_err(|e| e.to_string())?);
     let prelude: Vec<Cell> = if with_prelude == 1 { parse_all(&prelude_text()?)? } else { vec![] };
@@ -273,9 +276,12 @@ pub fn main(args: &[String]) -> Result<(), String> {
                 cells.push((t.chars().take(300).collect(), c, false));
             }
         }
-        let cfg = RunCfg::plain();
+        let mut cfg = RunCfg::plain();
+        if budget > 0 {
+            cfg.budgets = Some(vec![budget, budget + 1, 1]);
+        }
         let mut s = Session::new(&cfg);
-        let mut st = SymTab::new();
+        let st_rc: Rc<RefCell<SymTab>> = Rc::new(RefCell::new(SymTab::new()));
         // the procedures implemented in Rust, by name
         let mut builtins = vec![];
         {
@@ -306,13 +312,16 @@ pub fn main(args: &[String]) -> Result<(), String> {
             }
             names.sort();
             for (n, d) in names {
-                builtins.push(json!({"id": st.id(&n), "name": d}));
+                builtins.push(json!({"id": st_rc.borrow_mut().id(&n), "name": d}));
             }
         }
         let steps: Rc<RefCell<Vec<Value>>> = Rc::new(RefCell::new(vec![]));
-        let first: Rc<RefCell<Option<(usize, usize)>>> = Rc::new(RefCell::new(None));
+        // the compiler's output, taken at the first instruction of the evaluation (later the entry stub may be
+        // collected): the entry stub is the lambda the first instruction belongs to, its MOVI operand the top-level lambda
+        let first: Rc<RefCell<Option<Value>>> = Rc::new(RefCell::new(None));
         let stc = steps.clone();
         let fc = first.clone();
+        let sth = st_rc.clone();
         let mut n: u64 = 0;
         s.vm.verif.hook = Some(Box::new(move |vm: &Vm, ev: VerifEvent| -> bool {
             if ev == VerifEvent::Step {
@@ -323,11 +332,20 @@ pub fn main(args: &[String]) -> Result<(), String> {
                 }
                 let mut v = stc.borrow_mut();
                 if v.is_empty() {
-                    *fc.borrow_mut() = Some(vm.verif_ip());
+                    let (ipl, _) = vm.verif_ip();
+                    let cells_h = vm.verif_heap().verif_cells();
+                    if let Some(VCell::Lambda(entry)) = cells_h.get(ipl) {
+                        if let Some(VCell::Ptr(mp)) = entry.bc.get(3) {
+                            if let Some(VCell::Lambda(main)) = cells_h.get(*mp) {
+                                *fc.borrow_mut() = Some(listing(vm, main, None, &mut sth.borrow_mut(), 0));
+                            }
+                        }
+                    }
                 }
                 if v.len() <= maxsteps {
                     v.push(step_record(vm));
                 }
+                return gc > 0 && n % gc == 0;
             }
             false
         }));
@@ -356,23 +374,10 @@ pub fn main(args: &[String]) -> Result<(), String> {
             rec["r"] = json!(if core.is_none() { "xerr" } else if truncated { "trunc" } else { r });
             rec["v"] = val;
             rec["core"] = match &core {
-                Some(x) => prog_datum(x, &mut st),
+                Some(x) => prog_datum(x, &mut st_rc.borrow_mut()),
                 None => json!({"t":"void"}),
             };
-            // the compiler's output, if compilation got that far: the entry stub is the lambda the first
-            // instruction belongs to, its MOVI operand the top-level lambda
-            let mut lst = json!({"none": true});
-            if let Some((ipl, _)) = *first.borrow() {
-                let cells_h = s.vm.verif_heap().verif_cells();
-                if let Some(VCell::Lambda(entry)) = cells_h.get(ipl) {
-                    if let Some(VCell::Ptr(mp)) = entry.bc.get(3) {
-                        if let Some(VCell::Lambda(main)) = cells_h.get(*mp) {
-                            lst = listing(&s.vm, main, None, &mut st, 0);
-                        }
-                    }
-                }
-            }
-            rec["listing"] = lst;
+            rec["listing"] = first.borrow_mut().take().unwrap_or(json!({"none": true}));
             total += v.len();
             nsteps += v.len();
             rec["steps"] = Value::Array(v);
@@ -382,7 +387,7 @@ pub fn main(args: &[String]) -> Result<(), String> {
                 break;
             }
         }
-        let rec = json!({"id": i + 1, "kind": kind, "sy": st.to_json(), "builtins": builtins, "forms": forms});
+        let rec = json!({"id": i + 1, "kind": kind, "sy": st_rc.borrow().to_json(), "builtins": builtins, "forms": forms});
         writeln!(f, "{}", rec).map_err(|e| e.to_string())?;
     }
     eprintln!("machine {}: {} sessions, {} forms, {} steps", kind, count, nforms, nsteps);
